@@ -31,10 +31,19 @@
  *   tv <T> <hex>         lyd_new_term on l_<T> -> E | <hex canonical> <detail>; detail = enum value | bits bitmap hex |
  *                        binary data hex | union member index | nothing
  *   cmp <T> <hex a> <hex b>   lyd_value_compare / lyd_compare_single as in t_types.c -> 0 | 1 | E
+ *   ci <T> <hex>         canonical string c1 of the value (lyd_new_term on l_<T>) and canonical string c2 of c1 stored again:
+ *                        E | <hex c1> <hex c2|E>
+ *   dupl <T> <hex a> <hex b>   a and b as two ll_<T> instances / two k_<T> list keys, inserted and validated
+ *                        (lyd_validate_all): "ll=<OK|DUP> k=<OK|DUP>" (DUP: insertion or validation refused) | E
+ *   perm <T> <hex a> <hex b> <hex c>   the three values inserted as ll_<T> siblings in all six orders: the common
+ *                        resulting sequence of canonical values | DIFF <seq> / <seq> | E
+ *   ip4z <addr> <len>    ipv4-prefix (addr as a 32-bit number, host byte order) stored as text a.b.c.d/len: the address
+ *                        of the canonical string as a number | E
  *   srt <T> <hex a> <hex b> ...   all inserted in this order as ll_<T> siblings (lyd_insert_sibling, sorted insertion):
  *                        canonical values in the resulting order | E
  */
 #include "common.h"
+#include <time.h>
 #include "libyang.h"
 #include "plugins_types.h"
 
@@ -89,6 +98,8 @@ static const struct tdef TYPES[] = {
     {"hx", "yang:hex-string", 0},
     {"mac", "yang:mac-address", 0},
     {"uu", "yang:uuid", 0},
+    {"ipp", "inet:ip-prefix", 0},
+    {"phys", "yang:phys-address", 0},
     {NULL, NULL, 0}
 };
 
@@ -783,6 +794,175 @@ do_srt(struct lys_module *mod, struct vcase *c)
     lyd_free_all(first);
 }
 
+
+static void
+do_ci(struct lys_module *mod, struct vcase *c)
+{
+    size_t len;
+    char *s = vunhex(c->f[2], &len);
+    char name[64];
+    struct lyd_node *n = NULL, *m = NULL;
+
+    snprintf(name, sizeof name, "l_%s", c->f[1]);
+    if (memchr(s, 0, len)) {
+        printf("NUL");
+    } else if (lyd_new_term(NULL, mod, name, s, 0, &n) || !n) {
+        printf("E");
+    } else {
+        put_str(lyd_get_value(n));
+        fputc(' ', stdout);
+        if (lyd_new_term(NULL, mod, name, lyd_get_value(n), 0, &m) || !m) {
+            printf("E");
+        } else {
+            put_str(lyd_get_value(m));
+        }
+    }
+    lyd_free_all(n);
+    lyd_free_all(m);
+    free(s);
+}
+
+static void
+do_dupl(struct ly_ctx *ctx, struct lys_module *mod, struct vcase *c)
+{
+    size_t la, lb;
+    char *a = vunhex(c->f[2], &la), *b = vunhex(c->f[3], &lb);
+    char name[64];
+    struct lyd_node *na = NULL, *nb = NULL, *first = NULL;
+    int dup;
+
+    if (memchr(a, 0, la) || memchr(b, 0, lb)) {
+        printf("NUL");
+        goto cleanup;
+    }
+    snprintf(name, sizeof name, "ll_%s", c->f[1]);
+    if (lyd_new_term(NULL, mod, name, a, 0, &na) || lyd_new_term(NULL, mod, name, b, 0, &nb)) {
+        printf("E");
+        lyd_free_all(na);
+        lyd_free_all(nb);
+        goto cleanup;
+    }
+    dup = 0;
+    if (lyd_insert_sibling(na, nb, &first)) {
+        dup = 1;
+        lyd_free_all(nb);
+        first = na;
+    } else if (lyd_validate_all(&first, ctx, LYD_VALIDATE_PRESENT, NULL)) {
+        dup = 1;
+    }
+    printf("ll=%s", dup ? "DUP" : "OK");
+    lyd_free_all(first);
+
+    snprintf(name, sizeof name, "k_%s", c->f[1]);
+    na = nb = first = NULL;
+    if (lyd_new_list(NULL, mod, name, 0, &na, a) || lyd_new_list(NULL, mod, name, 0, &nb, b)) {
+        printf(" k=E");
+        lyd_free_all(na);
+        lyd_free_all(nb);
+        goto cleanup;
+    }
+    dup = 0;
+    if (lyd_insert_sibling(na, nb, &first)) {
+        dup = 1;
+        lyd_free_all(nb);
+        first = na;
+    } else if (lyd_validate_all(&first, ctx, LYD_VALIDATE_PRESENT, NULL)) {
+        dup = 1;
+    }
+    printf(" k=%s", dup ? "DUP" : "OK");
+    lyd_free_all(first);
+
+cleanup:
+    free(a);
+    free(b);
+}
+
+static void
+do_perm(struct lys_module *mod, struct vcase *c)
+{
+    static const int P[6][3] = {{0, 1, 2}, {0, 2, 1}, {1, 0, 2}, {1, 2, 0}, {2, 0, 1}, {2, 1, 0}};
+    char *v[3], name[64];
+    char seq0[4096] = "", seq[4096];
+    size_t len;
+    int i, j, bad = 0, diff = 0;
+
+    for (i = 0; i < 3; i++) {
+        v[i] = vunhex(c->f[2 + i], &len);
+        if (memchr(v[i], 0, len)) {
+            bad = 1;
+        }
+    }
+    snprintf(name, sizeof name, "ll_%s", c->f[1]);
+    for (i = 0; (i < 6) && !bad && !diff; i++) {
+        struct lyd_node *first = NULL, *n, *ch;
+        size_t off = 0;
+
+        for (j = 0; (j < 3) && !bad; j++) {
+            n = NULL;
+            if (lyd_new_term(NULL, mod, name, v[P[i][j]], 0, &n) || !n) {
+                bad = 1;
+            } else if (!first) {
+                first = n;
+            } else if (lyd_insert_sibling(first, n, &first)) {
+                /* duplicates are refused: the instance is not added */
+                lyd_free_all(n);
+            }
+        }
+        seq[0] = 0;
+        for (ch = first; ch && !bad; ch = ch->next) {
+            const char *cv = lyd_get_value(ch);
+            size_t k;
+
+            if (off) {
+                seq[off++] = ' ';
+            }
+            if (!cv[0]) {
+                seq[off++] = '-';
+            }
+            for (k = 0; cv[k] && (off + 3 < sizeof seq); k++) {
+                off += sprintf(seq + off, "%02x", (unsigned char)cv[k]);
+            }
+            seq[off] = 0;
+        }
+        lyd_free_all(first);
+        if (!i) {
+            strcpy(seq0, seq);
+        } else if (strcmp(seq0, seq)) {
+            diff = 1;
+        }
+    }
+    if (bad) {
+        printf("E");
+    } else if (diff) {
+        printf("DIFF %s / %s", seq0, seq);
+    } else {
+        printf("%s", seq0);
+    }
+    for (i = 0; i < 3; i++) {
+        free(v[i]);
+    }
+}
+
+static void
+do_ip4z(struct lys_module *mod, struct vcase *c)
+{
+    unsigned long a = strtoul(c->f[1], NULL, 10);
+    unsigned plen = (unsigned)strtoul(c->f[2], NULL, 10);
+    char text[64];
+    struct lyd_node *n = NULL;
+    unsigned o[4], l2;
+
+    snprintf(text, sizeof text, "%lu.%lu.%lu.%lu/%u", (a >> 24) & 255, (a >> 16) & 255, (a >> 8) & 255, a & 255, plen);
+    if (lyd_new_term(NULL, mod, "l_ip4p", text, 0, &n) || !n) {
+        printf("E");
+    } else if (sscanf(lyd_get_value(n), "%u.%u.%u.%u/%u", &o[0], &o[1], &o[2], &o[3], &l2) != 5) {
+        printf("?");
+    } else {
+        printf("%lu %u", ((unsigned long)o[0] << 24) | (o[1] << 16) | (o[2] << 8) | o[3], l2);
+    }
+    lyd_free_all(n);
+}
+
 int
 main(void)
 {
@@ -790,6 +970,9 @@ main(void)
     struct ly_ctx *ctx = NULL;
     struct lys_module *mod = NULL;
 
+    /* date-and-time canonical strings use the local time zone (RFC 6991): make it UTC */
+    setenv("TZ", "UTC", 1);
+    tzset();
     ly_set_log_clb(log_cb);
     build_module();
     if (ly_ctx_new(NULL, LY_CTX_NO_YANGLIBRARY, &ctx) || lys_parse_mem(ctx, MODTEXT, LYS_IN_YANG, &mod)) {
@@ -812,6 +995,14 @@ main(void)
             do_cmp(mod, &c);
         } else if (!strcmp(comp, "srt") && (c.nf >= 4) && find_type(c.f[1])) {
             do_srt(mod, &c);
+        } else if (!strcmp(comp, "ci") && (c.nf >= 3) && find_type(c.f[1])) {
+            do_ci(mod, &c);
+        } else if (!strcmp(comp, "dupl") && (c.nf >= 4) && find_type(c.f[1])) {
+            do_dupl(ctx, mod, &c);
+        } else if (!strcmp(comp, "perm") && (c.nf >= 5) && find_type(c.f[1])) {
+            do_perm(mod, &c);
+        } else if (!strcmp(comp, "ip4z") && (c.nf >= 3)) {
+            do_ip4z(mod, &c);
         } else if (!strcmp(comp, "module")) {
             /* development aid: print the generated module */
             vputhex(MODTEXT, strlen(MODTEXT));
